@@ -40,9 +40,30 @@ HEADER = [
 ]
 
 
+PROBE_PIN = 16              # A2: read by the first statement of the loop body in `firstbind` scenarios
+
+
+# Scripts outside the scenario grid: the serial monitor constructed somewhere else than at the top level of the prologue.
+_MON_HDR = HEADER[:-1]
+MONITOR_PLACEMENTS = {
+    "in-prologue-branch": ["debug = 1", "if debug == 1:", "    mon = SerialMonitor(9600)", '    mon.write("pre")', "led = Led(5)", "while True:", '    mon.write("body")', "    led.on()", "    sleep(5)"],
+    "in-prologue-loop": ["for k in range(1):", "    mon = SerialMonitor(9600)", '    mon.write("pre")', "led = Led(5)", "while True:", '    mon.write("body")', "    led.toggle()", "    sleep(5)"],
+    "in-helper-called-from-prologue": ["def open_port():", "    mon = SerialMonitor(9600)", '    mon.write("pre")', "open_port()", "led = Led(5)", "while True:", "    led.on()", "    sleep(5)"],
+    "at-top-of-main-loop": ["led = Led(5)", "while True:", "    mon = SerialMonitor(9600)", '    mon.write("body")', "    led.on()", "    sleep(5)"],
+    "in-main-loop-branch": ["led = Led(5)", "n = 0", "while True:", "    n += 1", "    if n > 0:", "        mon = SerialMonitor(9600)", '        mon.write("body")', "    led.on()", "    sleep(5)"],
+    "after-other-statements": ["led = Led(5)", "led.on()", "sleep(5)", "mon = SerialMonitor(115200)", '    mon.write("pre")'.strip(), "while True:", '    mon.write("body")', "    sleep(5)"],
+}
+
+
+def monitor_scenarios() -> list:
+    return [{"custom": f"monitor-{k}", "src": "\n".join(_MON_HDR + v) + "\n", "pins": {5: "out"}, "buttons": [], "hasloop": True} for k, v in MONITOR_PLACEMENTS.items()]
+
+
 def sid(sc: dict) -> str:
+    if "custom" in sc:
+        return sc["custom"]
     return (f"{sc['kind']}-{sc['place']}-{sc['use']}-b{sc['nb']}-{'loop' if sc['hasloop'] else 'noloop'}-{sc['other']}"
-            + ("-rebind" if sc.get("rebind") else "") + (f"-anim{sc['anim']}" if sc.get("anim") else "") + ("-cont" if sc.get("cont") else "")
+            + ("-rebind" if sc.get("rebind") else "") + (f"-anim{sc['anim']}" if sc.get("anim") else "") + ("-cont" if sc.get("cont") else "") + ("-firstbind" if sc.get("firstbind") else "")
             + ("-decor" if sc.get("decor") else ""))
 
 
@@ -84,6 +105,9 @@ def render(sc: dict) -> dict:
             ticks.append("tick1")
     if sc.get("cont"):
         L.append("npass = 0")
+    if sc.get("firstbind"):
+        L.append('probe = Potentiometer("A2")')
+        pins[PROBE_PIN] = "inany"
     L.append('mon.write("pre")')
     if sc["use"] == "setup":
         L.append(op.format(n="dev"))
@@ -92,6 +116,8 @@ def render(sc: dict) -> dict:
         L.append("while True:")
         if sc["place"] == "looptop":
             L.append("    " + decl.format(n="dev"))
+        if sc.get("firstbind"):              # the first user statement of the body: binds a new name from a sensor reading
+            L += ["    lvl = probe.read()", "    lo, hi = lvl, lvl + 1"]
         L.append('    mon.write("body")')
         if sc.get("cont"):
             L += ["    npass += 1", "    if npass % 2 == 0:", "        continue"]
@@ -155,6 +181,8 @@ def project(raw: list, buttons: list, motors: list, ticks=()) -> list:
                     if m.index(e["p"]) == 2 and None not in st:        # enable written last
                         out.append({"e": "stop" if st == [0, 0, 0] else "drive", "m": motors.index(m)})
         elif t in ("dr", "ar", "pulse"):
+            if t == "ar" and e["p"] == PROBE_PIN:       # the probe is only read by the body's first statement
+                out.append({"e": "user"})
             out.append({"e": "in", "p": e["p"]})
             if t == "dr" and e["p"] in buttons:
                 out.append({"e": "poll", "b": str(e["p"])})
@@ -175,7 +203,7 @@ def project(raw: list, buttons: list, motors: list, ticks=()) -> list:
 
 
 def run_scenario(sc: dict, passes: int = 3) -> dict:
-    r = render(sc)
+    r = render(sc) if "custom" not in sc else {"src": sc["src"], "pins": sc["pins"], "buttons": sc["buttons"], "motors": [], "inputs": "", "ticks": []}
     # `again`: the sketch that runs is the one emitted by a process that has transpiled the same script before (the discipline
     # holds for every emission, not only for the first one of a process)
     res = fw.run_script({"src": r["src"], "passes": (passes + (1 if sc.get("cont") else 0)) if sc["hasloop"] else 0, "inputs": r["inputs"], "again": True})
